@@ -215,8 +215,6 @@ C19_EXCEPTIONS = {
         "the block types routed into this bucket are exactly the types the match handles [C18-D3 compares the routing set with the handled set on every run]",
     'c19.panic|hulc::bdl::Data::new|unreachable!|discr(next(into_iter(env_blocks)))=1;discr(env_blocks[].btype)=else:2,3,5,6,7,8,10,17':
         "the block types routed into this bucket are exactly the types the match handles [C18-D3 compares the routing set with the handled set on every run]",
-    'c19.panic|hulc::kyg::parse|Index::index|collect(map(str::split(data[],;),trim))[0]':
-        "str::split always yields at least one item, so the collected vector is non-empty",
 }
 
 C19_LOOP_EXCEPTIONS = {
